@@ -74,6 +74,51 @@ def parse_caps(app, g, problems, code='EPSG3857', latlon=False, mpu=1.0):
     return tms, wm
 
 
+def parse_wmsc(app, g, problems, srs='EPSG:3857'):
+    """the WMS-C TileSet of layer `lay` from the WMS 1.1.1 capabilities requested with TILED=true"""
+    from lxml import etree
+    sc = app.scale
+
+    def as_int(v, what):
+        f = float(v) / sc
+        if abs(f - round(f)) > 1e-5:
+            problems.append('%s = %r is not on the lattice' % (what, v))
+        return int(round(f))
+    wc = {'offered': False, 'box': [0, 0, 0, 0], 'res': [], 'w': 0, 'h': 0, 'srs': srs}
+    r = app.get('/service?SERVICE=WMS&REQUEST=GetCapabilities&VERSION=1.1.1&TILED=true', status='*')
+    if r.status_int != 200:
+        return wc
+    x = etree.fromstring(r.body)
+    for ts in x.findall('.//VendorSpecificCapabilities/TileSet'):
+        if (ts.findtext('Layers') or '').strip() != 'lay' or (ts.findtext('SRS') or '').strip() != srs:
+            continue
+        bb = ts.find('BoundingBox')
+        wc['offered'] = True
+        wc['box'] = [as_int(bb.get(k), 'WMS-C BoundingBox') for k in ('minx', 'miny', 'maxx', 'maxy')]
+        wc['res'] = [as_int(v, 'WMS-C resolution') for v in ts.findtext('Resolutions').split()]
+        wc['w'], wc['h'] = int(ts.findtext('Width')), int(ts.findtext('Height'))
+        wc['format'] = ts.findtext('Format')
+    return wc
+
+
+def fetch_wmsc(app, g, wc, a):
+    """GetMap TILED=true for WMS-C tile (x, y) of resolution number n, computed from the real TileSet"""
+    x, y, n = a
+    r = wc['res'][n]
+    sc = app.scale
+    bb = [(wc['box'][0] + x * wc['w'] * r) * sc, (wc['box'][1] + y * wc['h'] * r) * sc,
+          (wc['box'][0] + (x + 1) * wc['w'] * r) * sc, (wc['box'][1] + (y + 1) * wc['h'] * r) * sc]
+    resp = app.get('/service?SERVICE=WMS&VERSION=1.1.1&REQUEST=GetMap&LAYERS=lay&STYLES=&SRS=%s&BBOX=%r,%r,%r,%r&WIDTH=%d&HEIGHT=%d'
+                   '&FORMAT=%s&TILED=true' % (wc['srs'], bb[0], bb[1], bb[2], bb[3], wc['w'], wc['h'], wc.get('format') or 'image/png'),
+                   status='*')
+    if resp.status_int != 200 or not resp.content_type.startswith('image/'):
+        return resp.status_int, None
+    lv, cells, bg = L.decode_cells(g, app.image(resp))
+    if len(cells) != g['tw'] * g['th'] or len(lv) != 1:
+        return 200, None
+    return 200, L.cells_rect(g, list(lv)[0], cells)
+
+
 def fetch(app, g, f, a, k, code='EPSG3857'):
     x, y, z = a
     if f == 'tms':
@@ -119,12 +164,32 @@ def internal_level(g, f, z):
     return 2 * z1 if g.get('so') else z1
 
 
-def exercise(ctx, label, name, g, app, cov, thorough, code='EPSG3857', latlon=False, mpu=1.0):
+def exercise(ctx, label, name, g, app, cov, thorough, code='EPSG3857', latlon=False, mpu=1.0, srs='EPSG:3857'):
     bx0, by0, bx1, by1 = g['bbox']
     problems = []
     tms, wm = parse_caps(app, g, problems, code, latlon, mpu)
+    wc = parse_wmsc(app, g, problems, srs)
     tiles = []
+    refused = []
     k = 0
+    if wc['offered'] and wc['w'] and wc['h']:
+        for n, r in enumerate(wc['res']):
+            if r <= 0:
+                continue
+            nx = -((-(wc['box'][2] - wc['box'][0])) // (wc['w'] * r))
+            ny = -((-(wc['box'][3] - wc['box'][1])) // (wc['h'] * r))
+            coords = [(x, y, n) for x in range(nx) for y in range(ny)]
+            if len(coords) > 24 and not thorough:
+                ctx.rng.shuffle(coords)
+                keep = [(0, 0, n), (nx - 1, ny - 1, n), (0, ny - 1, n), (nx - 1, 0, n)]
+                coords = keep + [c for c in coords if c not in keep][:14]
+            for a in coords:
+                status, rect = fetch_wmsc(app, g, wc, a)
+                ctx.count((label, 'wmsc', a))
+                if rect is not None:
+                    tiles.append({'f': 'wmsc', 'a': list(a), 'rect': [int(round(v)) for v in rect]})
+                elif status != 200:
+                    refused.append({'f': 'wmsc', 'a': list(a), 'status': status})
     for f in ('tms', 'tms_nw', 'kml', 'wmts'):
         if f == 'wmts' and not wm['offered']:
             continue
@@ -156,7 +221,7 @@ def exercise(ctx, label, name, g, app, cov, thorough, code='EPSG3857', latlon=Fa
                                   '%s: advertised address %s %s answered %s' % (label, f, a, status), None)
     gj = dict(g)
     gj['res'] = [int(round(r)) for r in g['res']]       # odd sqrt2 levels are never addressed publicly: rounded
-    doc = {'grid': gj, 'tms': tms, 'wmts': wm, 'tiles': tiles}
+    doc = {'grid': gj, 'tms': tms, 'wmts': wm, 'wmsc': wc, 'tiles': tiles, 'refused': refused}
     r, v = validate(ctx, label, doc)
     ctx.cov['states'] += max(r.distinct, 1)
     ctx.cov['transitions'] += len(tiles)
@@ -175,6 +240,26 @@ def exercise(ctx, label, name, g, app, cov, thorough, code='EPSG3857', latlon=Fa
         ctx.violation({'kind': 'tms-origin', 'cause': 'layer-extent-corner-instead-of-grid-origin'},
                       '%s: TMS <Origin> is %s, tile (0,0) of the grid starts at %s (layer extent %s)' % (
                           label, tms['origin'], [bx0, by0], tms.get('bbox')), {'grid': g, 'coverage': cov})
+    if not v['wmscmodel']:
+        raise tlc.MachineryError('%s: characterisation WmscExpect disagrees with WmscConsistent in the model' % label)
+    if not v['wmsccap']:
+        ctx.violation({'kind': 'capabilities-vs-model', 'grid': name, 'wmsc': False},
+                      '%s: published WMS-C TileSet differs from the model: %s' % (label, json.dumps(wc)), None)
+    if v['refusedbinding']:
+        c = refused[v['refusedbinding'] - 1]
+        ctx.violation({'kind': 'address-mapping', 'grid': name, 'flavour': 'wmsc'},
+                      '%s: WMS-C tile %s refused with %s although the model serves it' % (label, c['a'], c['status']), {'grid': g, 'tile': c})
+    if refused:
+        c = refused[0]
+        if wc['box'][:2] != [bx0, by0] and not v['wmscexpect']:
+            sig = {'kind': 'wmsc-refused', 'cause': 'tileset-boundingbox-is-the-layer-extent-not-the-grid'}
+        elif g['ul'] and not v['wmscexpect']:
+            sig = {'kind': 'wmsc-refused', 'cause': 'rows-counted-from-south-on-ul-grid-whose-rows-do-not-fill-the-bbox'}
+        else:
+            sig = {'kind': 'wmsc-refused', 'grid': name}
+        ctx.violation(sig, '%s: %d advertised WMS-C addresses refused, e.g. tile %s computed from the TileSet (BoundingBox %s, '
+                      'resolutions %s) answered %s (grid bbox %s, layer extent %s)' % (
+                          label, len(refused), c['a'], wc['box'], wc['res'], c['status'], [bx0, by0, bx1, by1], cov), {'grid': g, 'coverage': cov, 'tile': c})
     if v['binding']:
         c = tiles[v['binding'] - 1]
         ctx.violation({'kind': 'address-mapping', 'grid': name, 'flavour': c['f']},
@@ -193,8 +278,8 @@ def exercise(ctx, label, name, g, app, cov, thorough, code='EPSG3857', latlon=Fa
         ctx.violation(sig, '%s: %s %s serves %s but a client computes another rectangle from the capabilities '
                       '(TMS origin %s, sets %s; %d addresses of all flavours affected)' % (
                           label, c['f'], c['a'], c['rect'], tms['origin'], tms['sets'][:3], v['nproperty']), {'grid': g, 'tile': c})
-    ctx.log('%s: %d tiles decoded; caps ok=%s/%s origin ok=%s binding bad=%d property bad=%d' % (
-        label, len(tiles), v['tmscap'], v['wmtscap'], v['tmsorigin'], v['nbinding'], v['nproperty']))
+    ctx.log('%s: %d tiles decoded (%d wmsc, %d wmsc refused); caps ok=%s/%s/%s origin ok=%s binding bad=%d property bad=%d' % (
+        label, len(tiles), sum(1 for t in tiles if t['f'] == 'wmsc'), len(refused), v['tmscap'], v['wmtscap'], v['wmsccap'], v['tmsorigin'], v['nbinding'], v['nproperty']))
 
 
 def run(ctx):
@@ -233,13 +318,13 @@ def run(ctx):
             gc['res_factor'] = 'sqrt2'
         app = L.LatticeApp(g, srs=srs, scale=half / B, grid_conf=gc)
         try:
-            exercise(ctx, label, label, g, app, None, thorough, code=code, latlon=latlon, mpu=mpu)
+            exercise(ctx, label, label, g, app, None, thorough, code=code, latlon=latlon, mpu=mpu, srs=srs)
         finally:
             app.close()
     ctx.assumptions += [
         "lattice world, 'local' profile grids (the global-mercator / global-geodetic profiles that hide level 0 are covered "
         'by C16 for addressing and not here), EPSG:3857 only (no lat/long axis order)',
-        'WMS-C TileSet description and the KML LatLonBox documents are not compared (KML tiles are, with the TMS convention)',
+        'the KML LatLonBox documents are not compared (KML tiles are, with the TMS convention)',
         'only tiles completely inside the source coverage are decoded',
     ]
     return ctx.finish('model_checking',
